@@ -36,6 +36,13 @@ EXPLANATION = (
   " (PAIR-default-end) where the merging filters are not applied unconditionally the writer's finish() gives the default end to every cue that has none, not to the last list entry only;"
   ' (NUL-htmlattr) in subclasses of HTMLParser the value of an attribute, which is None for an attribute written without a value, is tested against None before it is passed on or dereferenced;'
   ' (LINT-k) no instance field declared with a numeric type is tested by truthiness (the number 0 would count as `not set`);'
+  ' (LINT-l) no tuple / list / set display of the anchored modules lists the same computed component twice and no dict display repeats a key (a key or fingerprint built that way cannot tell apart what the missing component would have);'
+  ' (STATE-share) no assignment stores a container field of one object (a field the package updates in place) into a field of another object without copying it, so an in-place update of one object never changes another;'
+  " (ITEM-source) an object built once per item of an inner loop is filled only with values that derive from that item or do not vary with the loops, never with a value of the enclosing container standing where the item's own belongs;"
+  " (NUL-arg) the result of a getter that returns None for a missing entry (get_style, get_initial_value, ...) is never passed straight into a function that dereferences that parameter without a None test, unless the key is drawn from the same container's own keys;"
+  " (FIN-resume) the codec error handler of the STL reader, evaluated on the ranges the package's decoders report (including a two-byte range that ends past the buffer), returns the resume position error.end and does not fail;"
+  ' (COND-supported) as in C07: under every option assignment the properties the cue writers read are kept by the whitelist built for that assignment, so no read yields an unexpected None;'
+  ' (NUL-known) no local is dereferenced at a point where a dominating test has established that it is None and nothing has assigned it since (the test and the dereference would contradict each other);'
 )
 RULE_TEXT = "per function / class / dereference / extraction site / raise statement"
 UNDECIDED = ["termination", "RecursionError (input-depth recursion exists in from_xml, dfs_iterator, _process_element)", "TypeError / AssertionError guarded by data-dependent invariants",
@@ -292,6 +299,9 @@ def run(ctx):
   for prod, ref in (("ttconv.srt.writer:SrtContext.add_isd", "ttconv.srt.paragraph:SrtParagraph.to_string"), ("ttconv.vtt.writer:VttContext.add_isd", "ttconv.vtt.cue:VttCue.to_string")):
     shape.check_interval_resolution(ctx, ctx.ix.func(prod), ctx.ix.func(ref))
   common.check_item_handlers(ctx, common.READERS)
+  from . import c09 as _c09, c07 as _c07
+  _c09.check_codec_error_handlers(ctx)
+  _c07.check_supported_per_option(ctx)
   from ..rules import fallback
   nfb = fallback.check_error_fallbacks(ctx, common.funcs(ctx, ["ttconv.imsc.attributes"]), exempt={
     "ttconv.imsc.attributes:ExtentAttribute.extract": "non-integer pixel dimensions are reported and then truncated: the value is used, not ignored (lenient by design, one message)"})
@@ -301,4 +311,6 @@ def run(ctx):
   nha = nul.check_html_attr_values(ctx, list(ctx.ix.classes.values()))
   ctx.floor("NUL-htmlattr", "uses of HTML attribute values", nha, 1)
   common.check_numeric_fields(ctx, list(ctx.ix.modules))
+  common.check_nullable_args(ctx, MODS)
+  common.check_known_none(ctx, MODS)
   common.check_history_independence(ctx, MODS)
